@@ -461,7 +461,7 @@ fn step_payload(seed: u64, idx: usize, down: bool, k: usize, len: u32) -> Vec<u8
     gen::keystream(seed ^ ((idx as u64 + 1) << 36) ^ if down { 0x7777_0000 } else { 0 }, k * 70_001, len as usize)
 }
 
-fn step_new<'a>(c: &StepCase, sh: &Shared, idx: usize, plan: &'a StepSession) -> Result<StepSt<'a>, String> {
+fn step_new<'a>(c: &StepCase, sh: &Shared, idx: usize, plan: &'a StepSession, alone: bool) -> Result<StepSt<'a>, String> {
     let nusers = sh.cctx.len();
     let u = plan.user as usize % nusers;
     let target = Addr::V4([10, 9, (idx / 200) as u8, (idx % 200) as u8 + 1], 3000 + idx as u16);
@@ -470,7 +470,9 @@ fn step_new<'a>(c: &StepCase, sh: &Shared, idx: usize, plan: &'a StepSession) ->
         let cred = gen::make_cred(c.proto, "interleaving password", c.seed, c.n_users as usize, u);
         let want_user = if cred.users.is_empty() { None } else { Some(cred.users[u % cred.users.len()].0.clone()) };
         let refc = match (plan.ref_sid, c.proto) {
-            (Some(v), Proto::Ss22(c22)) => crate::refside::ref_keys(&cred).ok().map(|keys| RefCli { c22, keys, sid: 0x51d0_0000_0000_0000 | v as u64 }),
+            // the id is this case's own (the implementation keeps per-session state in a process-wide cache for 30 s), and the
+            // re-run of a single session uses yet another one: "alone" means without anything the other sessions left behind
+            (Some(v), Proto::Ss22(c22)) => crate::refside::ref_keys(&cred).ok().map(|keys| RefCli { c22, keys, sid: 0x51d0_0000_0000_0000 | ((c.seed & 0xffff_ffff) << 8) | v as u64 | if alone { 1 << 44 } else { 0 } }),
             _ => None,
         };
         Kind::Udp(Box::new(UdpSt { refc, want_user, cc: sh.cudp[u].as_ref().unwrap().codec(), up_q: Default::default(), down_q: Default::default(), sess: None, up_seen: 0, down_seen: 0 }))
@@ -488,7 +490,6 @@ fn step_new<'a>(c: &StepCase, sh: &Shared, idx: usize, plan: &'a StepSession) ->
             c_fed: false,
         }))
     };
-    let _ = c;
     Ok(StepSt { idx, plan, kind, target, next_up: 0, next_down: 0, calls: 0, done: false })
 }
 
@@ -711,7 +712,7 @@ fn step_run(c: &StepCase, only: Option<usize>) -> Result<(Option<(usize, String)
     let mut sts: Vec<StepSt> = vec![];
     for (i, p) in c.sessions.iter().enumerate() {
         if only.map(|o| o == i).unwrap_or(true) {
-            sts.push(step_new(c, &sh, i, p)?);
+            sts.push(step_new(c, &sh, i, p, only.is_some())?);
         }
     }
     let mut order: Vec<u8> = vec![];
